@@ -687,7 +687,15 @@ type MemberExpression struct {
 }
 
 func (me *MemberExpression) WriteTo(cw *CodeWriter) {
-	me.Object.WriteTo(cw)
+	// `1.p` is read as the number `1.` followed by `p`: a decimal integer
+	// whose property is accessed with a dot is parenthesised
+	if lit, ok := me.Object.(*IntegerLiteral); ok && !me.Computed && isDecimalDigits(lit.Token.Literal) {
+		cw.WriteRune('(')
+		me.Object.WriteTo(cw)
+		cw.WriteRune(')')
+	} else {
+		me.Object.WriteTo(cw)
+	}
 	cw.WriteLeadingComments(me.Token.LeadingComments)
 	if me.Computed {
 		cw.AddMapping(me.Token.Start)
@@ -699,6 +707,16 @@ func (me *MemberExpression) WriteTo(cw *CodeWriter) {
 		cw.WriteRune('.')
 		me.Property.WriteTo(cw)
 	}
+}
+
+// isDecimalDigits reports whether s consists of decimal digits only.
+func isDecimalDigits(s string) bool {
+	for i := 0; i < len(s); i++ {
+		if s[i] < '0' || s[i] > '9' {
+			return false
+		}
+	}
+	return len(s) > 0
 }
 
 func (me *MemberExpression) Precedence() int {
